@@ -296,11 +296,18 @@ func sliceLenOf(v reflect.Value) int { return sliceLen(v) }
 //@ modifies everything
 //@ at call delete#0 assert-before key-has-length: p.len == sliceLenOf(v)
 
+// visitedMark(v): visitPointer returned nil for v during this call (a ghost mark: the
+// opaque predicate is established only by visitPointer's assumed postcondition).
+//
+//@ spec visitedMark opaque
+func visitedMark(v reflect.Value) bool { return true }
+
 //@ func visitPointer
 //@ property C18
 //@ assertions-only map operations are outside the subset: only the key is decided
 //@ requires m != nil
 //@ modifies everything
+//@ ensures-assumed marks-visited: result == nil ==> visitedMark(v)
 //@ at return#1 assert key-has-length: p.len == sliceLenOf(v)
 
 // ---------------------------------------------------------------- integer range checks (C10)
@@ -334,3 +341,36 @@ func sliceLenOf(v reflect.Value) int { return sliceLen(v) }
 //@ modifies everything
 //@ at call xd.ReadValue#0 assume-before bit-size: bits == 8 || bits == 16 || bits == 32 || bits == 64
 //@ at call va.SetUint#3 assert-before in-range: ok && (bits == 64 || n <= uint64(1)<<uint(bits)-1)
+
+// ---------------------------------------------------------------- pointer hops are cycle-checked (C20)
+//
+// "Marshaling a cyclic Go value returns an error instead of recursing without bound."
+// Cycle detection is switched on by the depth of the token stack; a descent through a
+// pointer whose element is again a pointer or an interface writes no token, so the
+// depth never grows along a chain of such hops (type P *P; p = &p - or x any = &x).
+// Decided here: the pointer marshaler descends without having visited the pointer only
+// if the descent is bound to write a token before the next pointer hop, i.e. the
+// element kind is neither Pointer nor Interface (finding F2).
+
+// typeElemOf / typeKindOf: reflect.Type.Elem and Kind as opaque functions of the type.
+//
+//@ spec typeElemOf opaque
+func typeElemOf(t any) any { return t.(reflect.Type).Elem() }
+
+//@ spec typeKindOf opaque
+func typeKindOf(t any) reflect.Kind { return t.(reflect.Type).Kind() }
+
+//@ extern reflect.Type.Elem() (result reflect.Type)
+//@ trusted reflect getter: pure with respect to the heap the contracts speak about
+//@ ensures result == typeElemOf(recv)
+
+//@ extern reflect.Type.Kind() (result reflect.Kind)
+//@ trusted reflect getter: pure with respect to the heap the contracts speak about
+//@ ensures result == typeKindOf(recv)
+
+//@ func makePointerArshaler$2
+//@ property C20
+//@ assertions-only reflection closure: only the cycle guard of the descent is decided
+//@ requires enc != nil && mo != nil
+//@ modifies everything
+//@ at call va.IsNil#0 assert-before hop-is-cycle-checked: visitedMark(va.Value) || (typeKindOf(typeElemOf(t)) != reflect.Pointer && typeKindOf(typeElemOf(t)) != reflect.Interface)
